@@ -152,9 +152,17 @@ func (c *Check) runAll() *checkResult {
 	if !enough() {
 		c.stage("history_sweep", c.sweepHist)
 	}
+	small := false
+	if !enough() && len(e.Report.Knobs) > 0 {
+		c.stage("small_variant_build", func() { small = c.smallVariant() })
+		c.Log("capacity knobs: %d found, %d shrunk to 2 in a variant build whose sequential results equal the reference; rejected: %v", len(e.Report.Knobs), len(c.Knob.Accepted), c.Knob.Rejected)
+	}
 	if !enough() {
 		if c.Tier == "quick" {
 			c.stage("random_search", func() { c.randomSearch(0, 64, 250) })
+			if small && !enough() {
+				c.stage("small_variant", func() { c.searchSmall(500000, 32, 250) })
+			}
 			if !enough() {
 				c.stage("determinism", func() { c.determinism(2, []int{1, 16}, 1) })
 			}
@@ -166,6 +174,9 @@ func (c *Check) runAll() *checkResult {
 					n := c.NCPU * 4
 					c.randomSearch(w, n, 200)
 					w += n
+					if small && !enough() {
+						c.searchSmall(500000+w, n/2, 200)
+					}
 					c.Log("  random search: %d cold processes, %d runs, %d steps so far", c.Agg.ColdProcs, c.Agg.Runs, c.Agg.Steps)
 				}
 			})
